@@ -514,9 +514,27 @@ fn c16_one<A: Automaton>(a: &A, name: &str, expect_start: [bool; 2], case: &Case
     ctx.count("match_states", match_states);
     // caller-written loop vs built-in search (unanchored, whole haystack and
     // every suffix start is covered by sub-slicing the haystack)
-    if expect_start[0] {
-        let occ = Occ::new(&case.patterns, &case.haystack, case.cfg.casei);
-        let hay = &case.haystack[..];
+    // haystacks: the generated one, plus the longest / last / first pattern
+    // embedded in filler bytes (so that each pattern is searched for from the
+    // start state at least once)
+    let mut hays: Vec<Vec<u8>> = vec![case.haystack.clone()];
+    if expect_start[0] && !case.patterns.is_empty() {
+        let longest = case.patterns.iter().max_by_key(|p| p.len()).unwrap();
+        for p in [longest, &case.patterns[case.patterns.len() - 1], &case.patterns[0]] {
+            if p.is_empty() {
+                continue;
+            }
+            let filler = (0..=255u8).rev().find(|b| !p.contains(b)).unwrap_or(b'Z');
+            let mut h = vec![filler; 3];
+            h.extend_from_slice(p);
+            h.extend_from_slice(&[filler; 2]);
+            h.extend_from_slice(&p[..p.len() / 2]);
+            hays.push(h);
+        }
+    }
+    for hay_owned in if expect_start[0] { &hays[..] } else { &hays[..0] } {
+        let occ = Occ::new(&case.patterns, hay_owned, case.cfg.casei);
+        let hay = &hay_owned[..];
         let mine = guard(|| documented_find(a, hay)).map_err(|p| format!("{}: documented loop panicked: {}", name, p))?
             .map_err(|e| format!("{}: documented loop returned Err({})", name, e))?
             .map(to_m);
@@ -589,7 +607,7 @@ pub const C16: PropDef = PropDef {
     rule: "per generated (pattern list, builder options): for noncontiguous NFA, contiguous NFA and DFA (start kind Unanchored/Anchored/Both) a breadth-first walk of every state reachable from every obtainable start state \
 under next_state(a, s, b) for every supported anchoring argument a and all 256 bytes b (exhaustive per automaton; counters states/transitions), checking: no panic, dead absorbing, dead|match => special, special => dead|match|start, not dead&match, \
 match_len >= 1, pattern ids < patterns_len and not repeated, pattern lengths non-increasing along a match list, start_state fails exactly for unsupported anchoring and returns an is_start state; \
-plus the caller-written unanchored loop transcribed from the trait documentation vs Automaton::try_find vs the model on a generated haystack. \
+plus the caller-written unanchored loop transcribed from the trait documentation vs Automaton::try_find vs the model on the generated haystack and on three haystacks that embed the longest, last and first pattern in filler bytes. \
 Non-trivial = the automaton has a match state whose list contains an inherited (shorter) pattern. Distinct = distinct case fingerprint.",
     assumptions: &[
         "next_state is only called with anchoring arguments for which start_state succeeds (the documentation allows a panic otherwise)",
